@@ -29,6 +29,7 @@ def judgeAll (env : Env) (libs : List (String × Bytes)) (tr : List (Op × Obs))
     ("C08", mon08.run env mon08.init 0 View.empty vt),
     ("C09", mon09.run env mon09.init 0 View.empty vt),
     ("C10", mon10.run env mon10.init 0 View.empty vt),
+    ("C10", mon10s.run env mon10s.init 0 View.empty vt),
     ("C12", mon12.run env mon12.init 0 View.empty vt),
     ("C13", mon13.run env mon13.init 0 View.empty vt),
     ("C14", mon14.run env mon14.init 0 View.empty vt),
